@@ -244,6 +244,8 @@ def run(ctx):
         import C18_server
         prog_c, _info = cluster.load()
         C18_server.check(ctx, prog_c)
+        import C18_candidate
+        C18_candidate.check(ctx, prog_c)
     except (Inconclusive, Unmodelled) as e:
         ctx.inconclusive.append('C18 server slice: %s: %s' % (type(e).__name__, str(e)[:300]))
     th.join()
@@ -325,6 +327,11 @@ def sample_scenarios():
 def replay_file(path):
     d = json.load(open(path))
     rp = d.get('replay') or {}
+    if rp.get('which') == 'candidate':
+        import C18_candidate_replay
+        r = C18_candidate_replay.replay(rp['rp'])
+        print(r['detail'])
+        return 1 if r['replayed'] else 0
     if rp.get('which') == 'server':
         import C18_server_replay
         r = C18_server_replay.replay(rp['rp'])
